@@ -698,7 +698,22 @@ class C17(core.Property):
             return (f"ml {variant} {case['n']} {case['nk']} {self.ml_kind(case)}", body)
         raise core.InfraError(f"unknown family {fam}")
 
+    def _after_timeout(self, case, impl_out):
+        """A pool worker that hit the case timeout under machine load: `model_block` has already re-run
+        the case serially in the parent to obtain the schedule.  If that run completed, it is the
+        implementation's transcript (the run is deterministic); a genuine hang times out again and stays
+        a disagreement.  (core.evaluate applies the same retry to the first few timeouts only.)"""
+        if impl_out == ["IMPL-TIMEOUT"]:
+            t = self._memo.get(self._key(case))
+            if t and not t[0].startswith("IMPL-"):
+                return t
+        return impl_out
+
+    def compare_view(self, case, impl_out):
+        return self._after_timeout(case, impl_out)
+
     def judge_block(self, case, impl_out):
+        impl_out = self._after_timeout(case, impl_out)
         if impl_out and impl_out[0].startswith("IMPL-"):
             return None
         fam = case["family"]
